@@ -6,6 +6,9 @@ package c11
 
 import (
 	"bytes"
+	"crypto"
+	_ "crypto/sha256"
+	_ "crypto/sha512"
 	"encoding/binary"
 	"encoding/hex"
 	"fmt"
@@ -359,6 +362,41 @@ func init() {
 		for i := 0; i < 20*scale; i++ {
 			runV2("random+magic", cat(r.Bytes(r.Intn(40)), []byte(apkMagic)))
 			runV2("random", r.Bytes(1+r.Intn(40)))
+		}
+		// ---------------- apkSigner.Verify: merkle hasher over the requested hash list, then digests[i] for every requested entry
+		{
+			apkFile := buildApk(nil, 0)
+			inz, zerr := zipslicer.Read(bytes.NewReader(apkFile), int64(len(apkFile)))
+			lists := [][]crypto.Hash{{crypto.SHA256}, {crypto.SHA512}, {crypto.SHA256, crypto.SHA512}, {crypto.SHA256, crypto.SHA256}, {crypto.SHA512, crypto.SHA256, crypto.SHA512},
+				{crypto.SHA256, crypto.SHA512, crypto.SHA256, crypto.SHA512}, {}}
+			for _, hs := range lists {
+				args := make([]int64, len(hs))
+				for i, h := range hs {
+					args[i] = int64(h)
+				}
+				pc := &pcase{Parser: "apk_digest_loop", Input: "", Args: args, Kind: fmt.Sprintf("hashes=%v", hs)}
+				hs := hs
+				guard(pc, func() ([]int64, error) {
+					if zerr != nil {
+						return nil, zerr
+					}
+					h := apk.VerifNewMerkleHasher(hs)
+					for _, f := range inz.File {
+						if _, err := f.Dump(h); err != nil {
+							return nil, err
+						}
+					}
+					digests, err := h.Finish(inz, false)
+					if err != nil {
+						return nil, err
+					}
+					for i := range hs {
+						_ = digests[i]
+					}
+					return []int64{int64(len(digests))}, nil
+				})
+				emit(pc)
+			}
 		}
 		// ---------------- signxap.removeSignature
 		runXap := func(kind string, b []byte) {
